@@ -369,6 +369,8 @@ type CaseC12 struct {
 	Integer bool        `json:"integer"`
 	Orders  []OrderPlan `json:"orders"` // one schedule per run (cyclic)
 	Layout  Layout      `json:"layout"`
+	Period  []string    `json:"period,omitempty"` // the same global -b/-e for every run: composition must hold under a period too
+	Long    bool        `json:"long,omitempty"`
 }
 
 var perDayShapes = []string{"reg", "reg left-aligned", "reg old", "reg -s", "reg -s --csv", "reg -f", "reg --no-totals", "reg --totals-only", "reg --shorten", "csv log", "print"}
@@ -428,6 +430,15 @@ func genC12(thorough bool) func(t *rapid.T) Case {
 			c.Orders = append(c.Orders, OrderPlan{Mode: rapid.SampledFrom([]string{"asc", "desc", "shuffle", "rotate"}).Draw(t, fmt.Sprintf("o%d", i)), Seed: rapid.Uint64().Draw(t, fmt.Sprintf("os%d", i)), Arg: 1})
 		}
 		c.Layout = genLayout(t, "layout")
+		if rapid.IntRange(0, 3).Draw(t, "with_period") == 3 {
+			if rapid.Bool().Draw(t, "pb") {
+				c.Period = append(c.Period, "-b", baseDay.AddDate(0, 0, rapid.IntRange(-1, 4).Draw(t, "pb_off")).Format(defaultDateLayout))
+			}
+			if rapid.Bool().Draw(t, "pe") {
+				c.Period = append(c.Period, "-e", baseDay.AddDate(0, 0, rapid.IntRange(-1, 4).Draw(t, "pe_off")).Format(defaultDateLayout))
+			}
+		}
+		c.Long = rapid.IntRange(0, 3).Draw(t, "long_forms") == 3
 		return c
 	}
 }
@@ -536,7 +547,7 @@ func (c *CaseC12) Eval(ob *Obs) []Finding {
 	runs := 0
 	run := func(blocks []Block) *Result {
 		w := stdWorld(bookText, render(blocks, c.Layout))
-		w.Argv = Invocation{Shape: c.Shape, El: c.El, Food: c.Food, Globals: []string{"--no-color"}}.Argv()
+		w.Argv = Invocation{Shape: c.Shape, El: c.El, Food: c.Food, Globals: append([]string{"--no-color"}, c.Period...), Long: c.Long}.Argv()
 		w.Order = c.Orders[runs%len(c.Orders)]
 		runs++
 		return ob.run(w)
